@@ -141,8 +141,34 @@ def insertSorted (x : String) : List String → List String
   | [] => [x]
   | y :: ys => if x < y then x :: y :: ys else if x == y then y :: ys else y :: insertSorted x ys
 
+/-- `fq <size> op...`: the failure fan-out alone (Model.C27.handler / fdrainStep) -/
+def modelFQ (size : Nat) (ops : List String) : String :=
+  let cfg : Cfg := { maxBatch := 1, hasHandler := true, fqCap := size }
+  let rec go (s : St) (next : Nat) : List String → Option St
+    | [] => some s
+    | op :: rest =>
+      match op.toList with
+      | ['d'] => go (step cfg s .sysdown) next rest
+      | ['u'] => go { s with sysDown := false } next rest
+      | 'e' :: r =>
+        match (String.ofList r).toNat? with
+        | some n => if n > 64 then none else
+          go (handler cfg s ((List.range n).map fun i => (0, next + i))) (next + n) rest
+        | none => none
+      | _ => none
+  match go {} 0 ops with
+  | none => "bad-case"
+  | some s =>
+    let q := s.fq.length
+    let s := (List.range (q + 1)).foldl (fun s _ => step cfg s .fdrain) s
+    s!"cap={sysFanoutCap} q={q} dead={",".intercalate (s.dead.map fun m => toString m.2)}"
+
 def model (line : String) : String :=
   match words line with
+  | "fq" :: size :: ops =>
+    match size.toNat? with
+    | some size => if size > 1024 then "bad-case" else modelFQ size ops
+    | none => "bad-case"
   | "co" :: mb :: hdl :: ops =>
     match mb.toNat? with
     | some mb =>
@@ -214,6 +240,18 @@ def judge (line : String) : String :=
   -- without a configured error handler there is nobody to report a failed batch to
   let hdl := (words c).getD 2 "1" == "1"
   if o == "STALL" || o == "bad-case" then "ok" else
+  if (words c).head? == some "fq" then
+    -- every message handed to the error handler is dead-lettered: failures the oracle flags are the
+    -- hand-offs the handler dropped (finding C27-F2)
+    let total := ((words c).drop 2).foldl (fun acc op => match op.toList with
+      | 'e' :: r => acc + ((String.ofList r).toNat?.getD 0)
+      | _ => acc) 0
+    let deadS := ((o.splitOn "dead=").getD 1 "")
+    let dead := if deadS == "" then [] else (deadS.splitOn ",").filterMap String.toNat?
+    if dead.eraseDups.length != dead.length then "bad a message was dead-lettered twice"
+    else if dead.length == total then "ok"
+    else s!"bad fanout-dropped {total - dead.length} of {total} failed messages were not dead-lettered"
+  else
   match parseObs o with
   | none => "bad unparsable output: " ++ o
   | some ob =>
